@@ -66,6 +66,9 @@ BUILT["C18"]=("exhaustive enumeration of policies up to a node bound with truth-
 BUILT["C08"]=("exhaustive enumeration of concrete policies up to a leaf bound x every compiler entry point; truth-table and execution oracles",
         "ALL concrete policies up to the leaf bound (and / weighted or / thresh, leaves over keys, hash, height/time locks) through compile::<4 contexts>, compile_to_descriptor (5 contexts), compile_tr, compile_tr_native (3 caps), compile_tr_private_experimental, with and without an unspendable key: every Ok output has the policy's truth table under the harness's own lift (all assignments), small policies are additionally executed on the reference Script machine in every world, outputs are sane/signed/non-malleable/within limits/free of context-forbidden fragments, every node's stored type equals from_ast, and the string re-parses with the default parser.",
         "3 C08")
+BUILT["C11"]=("bounded-exhaustive input enumeration executed in fault-contained worker subprocesses",
+        "Strings (22 parser entry points each): all strings up to the length bound over a 22-character alphabet, all grammar-token sequences up to the token bound, every single edit of every valid string of the term enumeration, scaling probes (nesting to 200000, width to 100000, 100 kB names, 40-digit numbers); script decoder: token sequences, raw bytes, truncations/substitutions of valid scripts, deep/wide scripts; interpreter: standard scriptPubKey templates and truncations x scriptSigs x witness sequences; PSBT: reachable fully-populated states with every field dropped/emptied/set to a boundary value through finalize*/extract/update*/sighash_msg; planner: key forms x asset fingerprints x derivation paths x capability flags. Each case runs in a worker process (address-space limit, wall budget); panics, aborts, stack overflows and hangs are attributed to the single offending input.",
+        "3 C11")
 NA_REASON={}
 
 def hooks_commits():
